@@ -17,6 +17,27 @@ Every oracle below is a brute-force spec function written from the property stat
 `eval_*` function takes a small literal `case`, rebuilds the input with real repository objects
 (only through legal method calls), calls the real function and returns the list of contract
 violations; replay scripts contain the very same source (inspect.getsource) plus the case.
+
+Readings of the statements that the contracts rely on (kept as weak as the text allows):
+  * states are built by `drive()` the way the simulator would: release at the instant the inputs
+    are available, completion through step/finish + notify_task_completion, one scheduler run at
+    the final time; a VIRTUAL task with all inputs present exists only at that very instant; a
+    VIRTUAL source is one whose release time lies in the future.
+  * "a scheduled or running task only when retraction or preemption is enabled": SCHEDULED needs
+    retraction OR preemption (the code offers placed-but-not-started tasks under preemption),
+    RUNNING needs preemption.
+  * "never offered a task whose predecessors have not all completed" (lookahead 0, no
+    release_taskgraphs, no retraction) is demanded only of histories a run that does not plan
+    ahead can produce (nothing scheduled or dropped before its inputs were there); a join needs
+    one completed parent.
+  * a join that an earlier parent has already released is outside notify's contract (ill-formed
+    graph: both branches ran); conditionals have >= 2 children; child weights must sum to 1
+    (or all be 0) for a completion to be inside the contract.
+  * decided non-findings are not demanded: `release()` on a SCHEDULED task keeps the fallback
+    state VIRTUAL (lifecycle accepts VIRTUAL or RELEASED there); resolution at submission may
+    ignore the declared weights.
+  * ids starting with `cancel.cascade_incomplete` all share one root cause (the DFS in
+    TaskGraph.cancel stops at the first revisited/cancelled node or live join).
 """
 import hashlib
 import inspect
@@ -802,12 +823,16 @@ def eval_resolve(case, stats=None):
         log_dir=None, log_file_name=None, log_level="info", decompose_deadlines=False, random_seed=0)
     jg = JobGraph(name="JG", jobs=mapping, completion_time=T(1000),
                   release_policy=JobGraph.ReleasePolicy.fixed(period=T(50), num_invocations=2))
-    if case["route"] == "next":
-        graphs = [jg.get_next_task_graph(T(0), _flags=fl), jg.get_next_task_graph(T(7), _flags=fl)]
-        fn = "JobGraph.get_next_task_graph"
-    else:
-        graphs = list(jg.generate_task_graphs(T(1000), _flags=fl).values())
-        fn = "JobGraph.generate_task_graphs"
+    try:
+        if case["route"] == "next":
+            graphs = [jg.get_next_task_graph(T(0), _flags=fl), jg.get_next_task_graph(T(7), _flags=fl)]
+            fn = "JobGraph.get_next_task_graph"
+        else:
+            graphs = list(jg.generate_task_graphs(T(1000), _flags=fl).values())
+            fn = "JobGraph.generate_task_graphs"
+    except Exception as e:
+        return [("resolve.generation_raised", "%r. shape=%s weights=%s resolve=%r route=%s" % (
+            e, case["shape"], weights, case["resolve"], case["route"]))], True
     if stats is not None:
         stats[fn] = stats.get(fn, 0) + 1
         stats["JobGraph._generate_task_graph"] = stats.get("JobGraph._generate_task_graph", 0) + len(graphs)
@@ -848,7 +873,11 @@ def eval_resolve(case, stats=None):
             clock += RT
             t.finish(T(clock))
             ran.append(x)
-            rel, can = tg.notify_task_completion(t, T(clock))
+            try:
+                rel, can = tg.notify_task_completion(t, T(clock))
+            except Exception as e:
+                out.append(("resolve.run_raised", "completion of %s raised %r. %s" % (x, e, head)))
+                break
             if stats is not None:
                 stats["TaskGraph.notify_task_completion"] = stats.get("TaskGraph.notify_task_completion", 0) + 1
             reln = [r.name for r in rel]
@@ -1059,8 +1088,9 @@ def mark_vectors(n, edges, flags, alphabet):
     return res
 
 
-def relevant_for_cancel(n, edges, start=0):
-    """every node is the start, a descendant of it, or a parent of a descendant"""
+def relevant_for_cancel(n, edges, start=0, flags=None):
+    """every node is the start, a descendant of it, or a parent of a descendant (with flags: of a
+    descendant that is a join -- the state of other outside parents cannot matter to the contract)"""
     par, chl = rel_maps(n, edges)
     desc = set()
     stack = [start]
@@ -1072,7 +1102,8 @@ def relevant_for_cancel(n, edges, start=0):
                 stack.append(c)
     keep = set([start]) | desc
     for d in desc:
-        keep.update(par[d])
+        if flags is None or flags[d] == "t":
+            keep.update(par[d])
     return len(keep) == n
 
 
@@ -1214,6 +1245,8 @@ def work_resolve(item, acc, base_seed):
     combos = list(itertools.product(vals, repeat=len(kids)))
     stride = item.get("stride", 1)
     for ci, combo in enumerate(combos):
+        if ci % item.get("parts", 1) != item.get("part", 0):
+            continue
         if stride > 1 and _h(base_seed, shape, combo) % stride:
             continue
         weights = dict(zip(kids, combo))
@@ -1272,6 +1305,8 @@ def build_items(pid, tier, seed):
     def add(work, n, es, kinds, **kw):
         for e in es:
             for flags in flag_strings(n, e, kinds):
+                if kw.get("mode") in ("start0", "n5") and not relevant_for_cancel(n, e, 0, flags):
+                    continue  # same contract instance as a smaller graph
                 items.append(dict(kw, work=work, n=n, edges=e, flags=flags))
 
     if pid in ("C06", "C07"):
@@ -1282,13 +1317,14 @@ def build_items(pid, tier, seed):
             add("cancel", 4, dags[4], "ct", mode="full")
             add("cancel", 5, d5, "t", mode="n5")
             notes.append("cancel: all labelled DAGs <=4 nodes x cond/join flags (<=2) x reachable marks over 6 states x every start; "
-                         "all %d labelled 5-node DAGs in which every node matters to cancel(N0) x join flags x marks over V/R/C/X (+SCHEDULED start)" % len(d5))
+                         "all labelled 5-node DAGs x join flags (<=2) in which every node matters to cancel(N0) [start, descendant, or "
+                         "parent of a descendant join; %d DAGs] x marks over V/R/C/X (+SCHEDULED start)" % len(d5))
         else:
             d4 = [e for e in dags[4] if relevant_for_cancel(4, e)]
             add("cancel", 4, d4, "t", mode="start0")
             add("cancel", 5, rnd.sample(d5, 500), "t", mode="n5")
-            notes.append("cancel: all labelled DAGs <=3 x cond/join flags x marks x every start; all %d labelled 4-node DAGs relevant to cancel(N0) x join flags; "
-                         "500 sampled of %d such 5-node DAGs" % (len(d4), len(d5)))
+            notes.append("cancel: all labelled DAGs <=3 x cond/join flags x marks x every start; all labelled 4-node DAGs x join flags in which every "
+                         "node matters to cancel(N0) [%d DAGs]; 500 sampled of %d such 5-node DAGs" % (len(d4), len(d5)))
     if pid == "C06":
         for a in range(len(ACTIONS)):
             for b in range(len(ACTIONS)):
@@ -1310,7 +1346,7 @@ def build_items(pid, tier, seed):
     if pid == "C18":
         for n in (1, 2, 3):
             add("states", n, dags[n], "ct", checks=["frontier", "releasable"], allpol=thorough)
-        stride = 3 if thorough else 10
+        stride = 2 if thorough else 10
         add("states", 4, dags[4] if thorough else topo4, "ct", checks=["frontier", "releasable"], stride=stride, allpol=thorough)
         notes.append("frontier/releasable: every reachable state of labelled DAGs <=3 x 2 times x lookahead {0,12,1000} x preemption x retraction x "
                      "release_taskgraphs x policies; 4-node %s DAGs: 1/%d of the states (hash-sampled)"
@@ -1322,7 +1358,8 @@ def build_items(pid, tier, seed):
             stride = 1 if (thorough or k <= 3) else 4
             if stride > 1:
                 exhaustive = False
-            items.append({"work": "resolve", "shape": shape, "stride": stride})
+            for part in range(8):
+                items.append({"work": "resolve", "shape": shape, "stride": stride, "parts": 8, "part": part})
         notes.append("resolution at submission: 6 job-graph shapes (1-2 conditional/join pairs) x child weights in {0,.3,.7,1} x 2 routes x 2 insertion orders x 3 seeds")
     return items, notes, exhaustive
 
@@ -1355,7 +1392,7 @@ def main():
         exhaustive = False
     R = Result(args, rule=RULES[args.pid], bound="; ".join(notes))
     R.distinct = _Bag()
-    # big items first, round-robin into chunks
+    # shuffled round-robin into chunks (items differ a lot in cost)
     chunks = {}
     nchunks = max(64, min(3000, len(items) // 6))
     order = list(range(len(items)))
@@ -1384,8 +1421,8 @@ def main():
             for vid, rec in viol.items():
                 if vid in merged:
                     merged[vid][3] += rec[3]
-                    # keep the smallest witness
-                    if len(repr(rec[2])) < len(repr(merged[vid][2])):
+                    # keep the smallest witness (deterministic whatever the arrival order)
+                    if (len(repr(rec[2])), repr(rec[2])) < (len(repr(merged[vid][2])), repr(merged[vid][2])):
                         merged[vid][0:3] = rec[0:3]
                 else:
                     merged[vid] = rec
